@@ -1505,7 +1505,7 @@ func runHistory(t *rapid.T, thorough bool, group, profile string) {
 	w.sdFiredAt = -1
 	shutdownPct, shutdownFaultPct, _ := w.shutdownOdds()
 	if !anyRemoved && rapid.IntRange(0, 99).Draw(t, "gracefulShutdown") < shutdownPct {
-		plan := drawShutdownPlan(t, shutdownFaultPct)
+		plan := drawShutdownPlan(t, shutdownFaultPct, false)
 		w.beforeShutdown(t)
 		liveClosed = true
 		w.opShutdown(plan)
